@@ -315,9 +315,6 @@ def finish(prop, m, known_all):
         if f.get('property') == prop and f.get('status') == 'open':
             print('KNOWN-FINDING: property=%s %s [%s] (met %d times in this run)' % (prop, f['what'], f['id'], m['known_hits'].get(f['id'], 0)))
     hb = [n for n in m.get('notes', []) if str(n).startswith('HARNESS-BUG')]
-    if m['errors'] or hb:
-        sys.stderr.write('CHECK BROKEN (harness error):\n' + '\n'.join([str(x) for x in (m['errors'] + hb)[:3]]) + '\n')
-        return 2
     seen = set()
     rc = 0
     for v in m['violations']:
@@ -326,4 +323,11 @@ def finish(prop, m, known_all):
         seen.add(v['label'])
         print('VIOLATION property=%s replay=%s label=%s' % (prop, v['replay'], v['label']))
         rc = 1
+    if m['errors'] or hb:
+        sys.stderr.write('CHECK BROKEN (harness error):\n' + '\n'.join([str(x) for x in (m['errors'] + hb)[:3]]) + '\n')
+        if rc == 0:
+            rc = 2
+    if rc == 0 and not m.get('evaluations'):
+        sys.stderr.write('CHECK BROKEN: nothing was evaluated\n')
+        rc = 2
     return rc
